@@ -38,11 +38,16 @@ NEWTYPES = [("i32", ["0", "-17", "+5", "2147483648", "", " 1", "0x10", "१"]),
             ("bool", ["true", "false", "True", "1", ""]),
             ("f32", ["1.5", "NaN", "inf", "-0", "1e400", "1,5", "."]),
             ("char", ["a", "ab", "", "é"]),
-            ("std::net::IpAddr", ["127.0.0.1", "::1", "256.0.0.1", "localhost"])]
+            ("std::net::IpAddr", ["127.0.0.1", "::1", "256.0.0.1", "localhost"]),
+            # a user type whose inherent `from_str` is NOT its FromStr impl: `Field::from_str(src)` in an expansion would reach it
+            ("Own", ["7", "x", "", "007"])]
+OWN_TYPE = ("#[derive(Debug, PartialEq)] pub struct Own(pub u8);\n"
+            "impl core::str::FromStr for Own { type Err = core::num::ParseIntError; fn from_str(s: &str) -> Result<Own, Self::Err> { s.parse::<u8>().map(Own) } }\n"
+            "impl Own { pub fn from_str(_s: &str) -> Result<Own, core::num::ParseIntError> { Ok(Own(213)) } }\n")
 
 
 def probe_source(enums):
-    parts = ["#![allow(non_camel_case_types, dead_code)]\nuse std::io::{BufRead, Write};\nuse core::str::FromStr;\n"]
+    parts = ["#![allow(non_camel_case_types, dead_code)]\nuse std::io::{BufRead, Write};\nuse core::str::FromStr;\n" + OWN_TYPE]
     arms = []
     for i, vs in enumerate(enums):
         vars_ = ", ".join(vname(v) for v in vs)
@@ -58,7 +63,7 @@ def probe_source(enums):
         for s in corpus:
             lit = vlib.rust_str(s)
             nt.append(f'    {{ let a = Nt{j}::from_str({lit}).map(|n| n.0); let c = Nn{j}::from_str({lit}).map(|n| n.v); '
-                      f'let b = <{ty}>::from_str({lit}); '
+                      f'let b = <{ty} as FromStr>::from_str({lit}); '
                       f'println!("NT {{}}", (format!("{{:?}}", a) == format!("{{:?}}", b) && format!("{{:?}}", c) == format!("{{:?}}", b)) as u8); }}')
     parts.append("fn main() {\n" + "\n".join(nt) + """
     let stdin = std::io::stdin(); let out = std::io::stdout(); let mut out = std::io::BufWriter::new(out.lock());
